@@ -1,0 +1,14 @@
+//go:build verif
+
+package language
+
+import "runtime"
+
+// Verification hooks (property C20, script tags).  Add-only file; compiled only with -tags verif.
+
+// VerifC20SourceFile returns the path of this file as compiled, which locates scripts_table.go
+// (the Script constants are declarations, not data).
+func VerifC20SourceFile() string {
+	_, f, _, _ := runtime.Caller(0)
+	return f
+}
